@@ -161,10 +161,10 @@ for _k, _found in {"C01": {**L0_FIELD_CORE, **L0_SCALAR}, "C02": {**L0_FIELD_COR
 # field.go are REGENERATED; these theorems are about the regenerated programs (value: FL.Curve/Models/Field; limb-bound
 # chaining through both backends against the contracts the L0 obligations prove: FL.Bounds).
 _FL_CURVE = reg("Voi.Props.FL.Curve", "Voi.Props.FL.Models")
-_FL_FIELD = reg("Voi.Props.FL.Field")
+_FL_FIELD = reg("Voi.Props.FL.Field", "Voi.Props.FL.Sqrt")
 _FL_BOUNDS = reg("Voi.Props.FL.Bounds", "Voi.FIR.Sound")
 for _k, _t in {"C03": {**_FL_CURVE, **_FL_BOUNDS}, "C04": {**_FL_FIELD, **_FL_BOUNDS}, "C06": _FL_BOUNDS, "C07": {**_FL_FIELD, **_FL_BOUNDS},
-               "C10": _FL_CURVE, "C11": _FL_CURVE}.items():
+               "C10": {**_FL_CURVE, **reg("Voi.Props.FL.Sqrt")}, "C11": {**_FL_CURVE, **reg("Voi.Props.FL.Sqrt")}}.items():
     PROPS[_k]["theorems"] = {**PROPS[_k]["theorems"], **_t}
     PROPS[_k]["gens"] = sorted(set(PROPS[_k].get("gens") or []) | {"go2ir", "flevel"})
     # T2: the real functions against the regenerated field-level programs (validates the field-level translator); serial builds only
